@@ -13,4 +13,5 @@ INVARIANT PropagationReproduced
 INVARIANT DesignLeavesSimParams
 INVARIANT SimParamsOnlyTemporarilyChanged
 INVARIANT EverythingDesigned
+INVARIANT LibraryUnchanged
 PROPERTY DesignAsAWholeKeepsSimParams
